@@ -1000,13 +1000,25 @@ impl FromStr for Epoch {
             };
 
             // This is a valid numerical format.
-            // Parse the time scale from the last three characters (TS trims white spaces).
-            let ts = TimeScale::from_str(&s[s.len() - 3..]).with_context(|_| ParseSnafu {
+            // Parse the time scale from the end of the string: the names are two to five characters long
+            // (TS trims white spaces). `get` returns None if this is not a character boundary.
+            let mut maybe_ts = Err(ParsingError::TimeSystem);
+            let mut ts_len = 0;
+            for len in [5, 4, 3, 2] {
+                if let Some(suffix) = s.len().checked_sub(len).and_then(|idx| s.get(idx..)) {
+                    maybe_ts = TimeScale::from_str(suffix);
+                    if maybe_ts.is_ok() {
+                        ts_len = len;
+                        break;
+                    }
+                }
+            }
+            let ts = maybe_ts.with_context(|_| ParseSnafu {
                 details: "parsing from string",
             })?;
             // Iterate through the string to figure out where the numeric data starts and ends.
             let start_idx = format.len();
-            let num_str = s[start_idx..s.len() - ts.formatted_len()].trim();
+            let num_str = s.get(start_idx..s.len() - ts_len).unwrap_or("").trim();
             let value: f64 = match lexical_core::parse(num_str.as_bytes()) {
                 Ok(val) => val,
                 Err(_) => {
